@@ -48,8 +48,8 @@ const (
 	ChainID   = "simnet-1"
 	Native    = "nund"
 	Denom2    = "stake"
-	Denom3    = "ufoo"
-	GenesisTS = int64(1700000000) // 2023-11-14, block clock origin
+	Denom3    = "ibc/C4CFF46FD6DE35CA4CF4CE031E643C8FDC9BA4B9" // upper-case characters, like an IBC voucher
+	GenesisTS = int64(1700000000)                              // 2023-11-14, block clock origin
 )
 
 // Account kinds of genesis accounts.
